@@ -1,8 +1,12 @@
 """C07 -- every covariance handed out is a valid covariance: the clauses a contract can state (proof tier).
 
-Positive semi-definiteness of kernel Gram matrices and of posterior / variational covariances is a theorem of analysis about the VALUES
-(Bochner / Schur complements), not a postcondition a solver can discharge from the code: those clauses are checked in the bounded tier only.
-What is proved here, for all inputs:
+Positive semi-definiteness of kernel Gram matrices is a theorem of analysis about the VALUES (Bochner), not a postcondition a solver can
+discharge from the code: that clause is checked in the bounded tier only.  For the posterior and variational covariances the argument is split:
+C01 / C14 prove that the code computes the closed forms (Schur-complement terms, solves as callee contracts), and the Lean 4 / Mathlib lemmas of
+lean/Psd.lean (re-checked by `lean` on every run) show that those closed forms are PSD over the reals whenever the joint prior covariance is PSD,
+the noise / variational covariance is PSD and the solved matrix is positive definite -- that prior minus posterior is PSD, and (lean/Mono.lean)
+that the posterior covariance can only decrease in the PSD order when observations are added.  Rounding is not
+covered by the lemmas (bounded tier).  What is proved here, for all inputs:
   * reported variances are the covariance diagonal clamped at settings.min_variance, hence >= the configured minimum, stddev is its
     non-negative square root, confidence_region is mean -+ 2 stddev (the C10 contract on MultivariateNormal.{variance, stddev, confidence_region});
   * the noise a likelihood adds is >= its constraint's lower bound: every noise-like parameter registered with a constraint reads as
@@ -111,3 +115,23 @@ def replay_hetero(model, params, clause, info):
     bad = d is None or not bool((d >= lower - 1e-12).all())
     return {"violates": bool(bad), "detail": f"HeteroskedasticNoise(noise_indices={'[1]' if with_indices else None}) with GreaterThan({lower}): smallest noise {None if d is None else d.min().item():.4g}",
             "entry": {"module": "contracts.C07_validity", "function": "replay_hetero", "args": [model, list(params), clause, info]}}
+
+
+
+@case("C07", clause="psd_of_closed_forms", name="psd_lemmas", expand=lambda ix: [()], replay=None, timeout=1500,
+      functions=["gpytorch.models.exact_prediction_strategies.DefaultPredictionStrategy.exact_predictive_covar", "gpytorch.variational.variational_strategy.VariationalStrategy.forward",
+                 "gpytorch.variational.unwhitened_variational_strategy.UnwhitenedVariationalStrategy.forward"])
+def psd_lemmas(c):
+    """lemmas over the contracts of C01 / C14 (Lean 4 / Mathlib, lean/Psd.lean), all over real matrices with [Kxx Kxs; Kxs^T Kss] the joint prior covariance:
+      posterior_psd              joint PSD, noise N PSD, A = Kxx + N positive definite  =>  Kss - Kxs^T A^-1 Kxs is PSD          (C01 predictive_covar's closed form)
+      prior_minus_posterior_psd  A positive definite  =>  Kss - (Kss - Kxs^T A^-1 Kxs) is PSD                                     (conditioning never adds uncertainty)
+      variational_psd            joint PSD, S PSD, Kzz positive definite  =>  Kxx - Kxz Kzz^-1 Kzx + (Kzz^-1 Kzx)^T S (Kzz^-1 Kzx) is PSD   (C14 unwhitened_forward's closed form)
+      more_data_less_variance    (lean/Mono.lean) three-block joint covariance over (old data, added data, test points) PSD, both solved matrices positive definite
+                                 =>  posterior covariance given the old data MINUS posterior covariance given old + added data is PSD     (adding observations never increases a variance)
+      whitened_psd               the same with L L^T = Kzz and A = L^-1 Kzx:  Kxx + A^T (S~ - I) A is PSD                         (C14 whitened_forward's closed form; the jitter the code
+                                                                                                                                    adds to Kzz and Kxx keeps the joint PSD)"""
+    c.ctx.assumptions.add("Lean 4.33 kernel and Mathlib are trusted for lean/Psd.lean; the lemmas are over real matrices (rounding is covered by the bounded tier only); "
+                          "PSD of the joint prior covariance itself (kernel validity) is a hypothesis of the lemmas, checked in the bounded tier")
+    for th in ("posterior_psd", "prior_minus_posterior_psd", "variational_psd", "whitened_psd"):
+        c.prove_lemma(f"psd.{th}", "Psd.lean", th)
+    c.prove_lemma("psd.more_data_less_variance", "Mono.lean", "more_data_less_variance")
